@@ -646,6 +646,8 @@ def run():
         if rng.random() < 0.3:
             # a stretch of the genome without any edge (missing sequence), with a fresh site layer on top
             a = gen.add_sites(gen.punch_gap(a, rng), rng, nsites=4, nmuts=3, nalleles=3)
+        if i % 3 == 2:       # node ids in no particular order
+            a = gen.permute_nodes(a, random.Random(SEED * 1000003 + i))
         S = [u for u in range(len(a["time"])) if a["flags"][u]]
         if len(S) < 2:
             continue
